@@ -343,7 +343,8 @@ class H5DataV1(DataSet):
 
         """
         # Avoid storing reference to self in transform closure below, as this hinders garbage collection
-        corrprod_keep = self._corrprod_keep
+        # Copy the mask, since select() modifies it in place and the indexer should keep its own selection
+        corrprod_keep = self._corrprod_keep.copy()
 
         # Apply both first-stage and second-stage corrprod indexing in the transform
         def index_corrprod(tf, keep):
